@@ -69,6 +69,11 @@ func payloadTree(sc Scn, t fsmodel.Tree) fsmodel.Tree {
 		if out[i].Kind == fsmodel.File && out[i].HL == 0 {
 			out[i].Data = payloadOf(sc, out[i].Data)
 		}
+		// names of one fifo or device inode are announced as links but stored as nodes of their own (DESIGN 5.3): the
+		// group is not part of what the destination has to reproduce
+		if out[i].Kind != fsmodel.File && out[i].Kind != fsmodel.Dir {
+			out[i].HL = 0
+		}
 	}
 	return out
 }
@@ -547,6 +552,10 @@ func driveC07(p *Pool, r *evid.Run) {
 		for _, pol := range []string{"run", "recv"} {
 			scns = append(scns, Scn{Kind: "refsend", Src: "c7long", Dst: dst, Cap: 64, Policy: pol, SelectAlts: true})
 		}
+	}
+	// special files with several names
+	for _, pol := range []string{"run", "recv"} {
+		scns = append(scns, Scn{Kind: "refsend", Src: "c7speclinks", Dst: "empty", Cap: 64, Policy: pol, SelectAlts: true})
 	}
 	// leftovers with predictable temporary names; names beginning with two dots
 	for _, pol := range []string{"run", "recv"} {
